@@ -25,6 +25,9 @@ type C03Plan struct {
 	Cache    int     `json:"cache,omitempty"` // client-side read cache size (0 none)
 	Delay    bool    `json:"delay,omitempty"` // with a cache: the client interface delays its writes (DelayCachedWrites)
 	Ops      []C03Op `json:"ops"`
+	// FlagHook (1 secret, 2 crown jewel, 3 both): a registered pre-put hook replaces every record the privileged
+	// interface stores by a copy that carries these flags (a component that protects a key range by hook)
+	FlagHook int `json:"flag_hook,omitempty"`
 }
 
 // C03Op is one step.
@@ -39,7 +42,7 @@ type C03Op struct {
 	GetFault int    `json:"get_fault,omitempty"` // backend simfault: the n-th storage read during this client operation fails
 }
 
-var c03ClientKinds = []string{"get", "exists", "query", "feed", "insert", "setabs", "setrel", "makesecret", "makecrown", "delete", "purge", "putmany", "put", "putnew", "rtget", "rtquery", "rtfeed", "apiget", "apiquery", "apisub", "apiupdate", "apiinsert", "apidelete"}
+var c03ClientKinds = []string{"get", "exists", "query", "feed", "insert", "setabs", "setrel", "makesecret", "makecrown", "delete", "purge", "putmany", "put", "putnew", "rtget", "rtquery", "rtfeed", "rtput", "apiget", "apiquery", "apisub", "apiupdate", "apiinsert", "apidelete"}
 
 func genC03(rng *rand.Rand, tier string) *C03Plan {
 	p := &C03Plan{Backend: []string{"hashmap", "hashmap", "fstree", "bbolt", "bbolt"}[rng.IntN(5)], Shadow: rng.IntN(2) == 0}
@@ -55,6 +58,9 @@ func genC03(rng *rand.Rand, tier string) *C03Plan {
 		p.Cache = []int{2, 64}[rng.IntN(2)]
 		p.Delay = rng.IntN(3) == 0
 	}
+	if p.Cache == 0 && rng.IntN(5) == 0 {
+		p.FlagHook = 1 + rng.IntN(3)
+	}
 	faulty := rng.IntN(6) == 0
 	if faulty {
 		p.Backend = "simfault" // hashmap behind a storage whose reads can be made to fail
@@ -64,7 +70,7 @@ func genC03(rng *rand.Rand, tier string) *C03Plan {
 		op := C03Op{Key: rng.IntN(5), Seed: rng.IntN(1 << 20), Prefix: rng.IntN(len(prefixPool)), Wrapped: rng.IntN(2) == 0}
 		if rng.IntN(3) == 0 || i == 0 {
 			op.Who = "priv"
-			op.Kind = []string{"put", "put", "put", "makesecret", "makecrown", "delete", "rtset", "rtset"}[rng.IntN(8)]
+			op.Kind = []string{"put", "put", "put", "makesecret", "makecrown", "delete", "rtset", "rtset", "putnewflagged"}[rng.IntN(9)]
 			op.Flags = rng.IntN(4)
 		} else {
 			op.Who = "client"
@@ -88,6 +94,7 @@ type c03State struct {
 	rtSub  *database.Subscription
 	rtVals map[string]*mrec // runtime values by key
 	rtPush runtime.PushFunc
+	rtSets []string // keys the runtime provider was asked to set
 	apiOut []string
 	dbapi  *api.DatabaseAPI
 	apiN   int
@@ -155,6 +162,58 @@ func (s *c03State) leak(path string, r record.Record, when string) bool {
 	return false
 }
 
+// flagHook: a pre-put hook that replaces what the privileged interface stores by a flagged copy.
+type flagHook struct {
+	database.HookBase
+	flags int
+}
+
+func (h *flagHook) UsesPrePut() bool { return true }
+
+func (h *flagHook) PrePut(r record.Record) (record.Record, error) {
+	if !strings.HasPrefix(idOfLocked(r), "n") {
+		return r, nil // written by the client
+	}
+	raw, err := r.MarshalRecord(r)
+	if err != nil {
+		return r, nil
+	}
+	cp, err := record.NewRawWrapper(dbName, r.DatabaseKey(), raw)
+	if err != nil {
+		return r, nil
+	}
+	if h.flags&1 != 0 {
+		cp.Meta().MakeSecret()
+	}
+	if h.flags&2 != 0 {
+		cp.Meta().MakeCrownJewel()
+	}
+	return cp, nil
+}
+
+// rtProvider serves the runtime values and accepts new ones.
+type rtProvider struct {
+	s    *c03State
+	mkRT func(key string, m *mrec) record.Record
+}
+
+func (pr *rtProvider) Get(keyOrPrefix string) ([]record.Record, error) {
+	var out []record.Record
+	for _, k := range sortedKeys(pr.s.rtVals) {
+		if strings.HasPrefix("vals/"+k, keyOrPrefix) || strings.HasPrefix(keyOrPrefix, "vals/"+k) {
+			out = append(out, pr.mkRT("vals/"+k, pr.s.rtVals[k]))
+		}
+	}
+	return out, nil
+}
+
+func (pr *rtProvider) Set(r record.Record) (record.Record, error) {
+	key := strings.TrimPrefix(r.DatabaseKey(), "vals/")
+	pr.s.rtSets = append(pr.s.rtSets, key)
+	pr.s.rtVals[key] = &mrec{Nonce: idOfLocked(r)}
+	return r, nil
+}
+
 func execC03(p *C03Plan, rc *simkit.RunCtx) {
 	s := &c03State{p: p, rc: rc, model: map[string]*mrec{}}
 	rc.Data = s
@@ -184,6 +243,15 @@ func execC03(p *C03Plan, rc *simkit.RunCtx) {
 		rc.Probe("client-delays-writes")
 	}
 	_, _ = s.priv.Get(dbName + ":warmup")
+	if p.FlagHook != 0 {
+		hk, herr := database.RegisterHook(query.New(dbName+":"), &flagHook{flags: p.FlagHook})
+		if herr != nil {
+			rc.Fail("C03.harness", "RegisterHook failed", herr.Error())
+			return
+		}
+		defer func() { _ = hk.Cancel() }()
+		rc.Probe("records-flagged-by-hook")
+	}
 	s.sub, err = s.client.Subscribe(query.New(dbName + ":"))
 	if err != nil {
 		rc.Fail("C03.harness", "subscribe failed", err.Error())
@@ -213,15 +281,7 @@ func execC03(p *C03Plan, rc *simkit.RunCtx) {
 		}
 		return r
 	}
-	push, err := reg.Register("vals/", runtime.SimpleValueGetterFunc(func(keyOrPrefix string) ([]record.Record, error) {
-		var out []record.Record
-		for _, k := range sortedKeys(s.rtVals) {
-			if strings.HasPrefix("vals/"+k, keyOrPrefix) || strings.HasPrefix(keyOrPrefix, "vals/"+k) {
-				out = append(out, mkRT("vals/"+k, s.rtVals[k]))
-			}
-		}
-		return out, nil
-	}))
+	push, err := reg.Register("vals/", &rtProvider{s: s, mkRT: mkRT})
 	if err != nil {
 		rc.Fail("C03.harness", "register runtime provider", err.Error())
 		return
@@ -252,7 +312,30 @@ func execC03(p *C03Plan, rc *simkit.RunCtx) {
 					rc.Fail("C03.harness", "privileged put failed", err.Error())
 					return
 				}
-				s.model[key] = &mrec{Nonce: nonce, F: f, Created: now, Modified: now, Secret: op.Flags&1 != 0, Crown: op.Flags&2 != 0, flaggedAtWrite: (op.Flags&1 != 0 && !p.Internal) || (op.Flags&2 != 0 && !p.Local)}
+				fl := op.Flags | p.FlagHook
+				s.model[key] = &mrec{Nonce: nonce, F: f, Created: now, Modified: now, Secret: fl&1 != 0, Crown: fl&2 != 0, flaggedAtWrite: (fl&1 != 0 && !p.Internal) || (fl&2 != 0 && !p.Local)}
+			case "putnewflagged":
+				// a record object that already carries its flags, stored as new
+				nonceCounter++
+				nonce := fmt.Sprintf("n%d", nonceCounter)
+				f := fieldsFromSeed(op.Seed)
+				r := makeRecord(key, nonce, f, op.Wrapped)
+				if r.Meta() == nil {
+					r.CreateMeta()
+				}
+				if op.Flags&1 != 0 {
+					r.Meta().MakeSecret()
+				}
+				if op.Flags&2 != 0 {
+					r.Meta().MakeCrownJewel()
+				}
+				if err := s.priv.PutNew(r); err != nil {
+					rc.Fail("C03.harness", "privileged put-new failed", err.Error())
+					return
+				}
+				fl := op.Flags | p.FlagHook
+				s.model[key] = &mrec{Nonce: nonce, F: f, Created: now, Modified: now, Secret: fl&1 != 0, Crown: fl&2 != 0, flaggedAtWrite: (fl&1 != 0 && !p.Internal) || (fl&2 != 0 && !p.Local)}
+				rc.Probe("flagged-record-object-stored-as-new")
 			case "makesecret":
 				if err := s.priv.MakeSecret(full); err == nil {
 					s.model[key].Secret = true
@@ -331,13 +414,12 @@ func execC03(p *C03Plan, rc *simkit.RunCtx) {
 					}
 					// a record may have been flagged after it was delivered: only current protection counts if the
 					// delivered object still is the stored one; use the flags of the delivered record itself
-					_, _, _, _, sec, crown := metaOf(r)
-					if (sec && !p.Internal) || (crown && !p.Local) {
-						n := nonceOf(r)
-						if m := s.modelByNonce(n); m != nil && m.flaggedAtWrite {
-							rc.Fail("C03.leak", "a protected record was pushed to the feed of a non-privileged subscriber ("+p.Backend+")", when+": "+n)
-							return
-						}
+					// (a write that was protected from this client from the start carries a nonce of its own: whatever
+					// object is delivered with that nonce, flagged or not, is that write)
+					n := nonceOf(r)
+					if m := s.modelByNonce(n); m != nil && m.flaggedAtWrite {
+						rc.Fail("C03.leak", "a protected record was pushed to the feed of a non-privileged subscriber ("+p.Backend+")", when+": "+n)
+						return
 					}
 				default:
 					more = false
@@ -347,6 +429,24 @@ func execC03(p *C03Plan, rc *simkit.RunCtx) {
 			r, err := s.client.Get("runtime:vals/" + key)
 			if err == nil && s.rtLeak("get on the injected runtime database", nonceOf(r), when) {
 				return
+			}
+		case "rtput":
+			// a write to a runtime value through the client: refused, and the provider not asked, if the value is protected
+			m := s.rtVals[key]
+			protected := m != nil && ((m.Secret && !p.Internal) || (m.Crown && !p.Local))
+			nonceCounter++
+			nr := &Rec{N: fmt.Sprintf("c%d", nonceCounter)}
+			nr.SetKey("runtime:vals/" + key)
+			nr.CreateMeta()
+			before := len(s.rtSets)
+			perr := s.client.Put(nr)
+			if protected && (perr == nil || len(s.rtSets) > before) {
+				rc.Fail("C03.protected-record-changed", "a protected value of an injected runtime database was changed through a non-privileged interface", fmt.Sprintf("%s: vals/%s err=%v", when, key, perr))
+				return
+			}
+			if protected {
+				s.rtVals[key] = m // (nothing changed)
+				rc.Probe("runtime-write-refused")
 			}
 		case "rtquery":
 			it, err := s.client.Query(query.New("runtime:vals/"))
